@@ -93,6 +93,7 @@ func (t *Collection) closeCollection() { // Just "close" is a keyword.
 	r := t.root
 	t.root = nil
 	t.rootLock.Unlock()
+	verifYield(10) // VerifSiteCloseColl
 	t.reclaimMarkUpdate(r.root, nil, &r.reclaimMark)
 	if r != nil {
 		t.rootDecRef(r)
@@ -107,6 +108,7 @@ func (t *Collection) closeCollection() { // Just "close" is a keyword.
 func (t *Collection) GetItem(key []byte, withValue bool) (i *Item, err error) {
 	rnl := t.rootAddRef()
 	defer t.rootDecRef(rnl)
+	verifYield(1) // VerifSiteGetPinned
 	n := rnl.root
 	for {
 		nNode, err := n.read(t.store)
@@ -202,9 +204,11 @@ func (t *Collection) SetItem(item *Item) (err error) {
 	// Can't reclaim n right now because r might point to n.
 	rnlNew.reclaimLater[0] = t.reclaimMarkUpdate(nloc,
 		&rnl.reclaimMark, &rnlNew.reclaimMark)
+	verifYield(5) // VerifSiteSetBeforeCAS
 	if !t.rootCAS(rnl, rnlNew) {
 		return errors.New("concurrent mutation attempted")
 	}
+	verifYield(6) // VerifSiteSetAfterCAS
 	t.rootDecRef(rnl)
 	return nil
 }
@@ -261,9 +265,11 @@ func (t *Collection) Delete(key []byte) (wasDeleted bool, err error) {
 	rnlNew.reclaimLater[2] = t.reclaimMarkUpdate(middle,
 		&rnl.reclaimMark, &rnlNew.reclaimMark)
 	t.markReclaimable(rnlNew.reclaimLater[2], &rnlNew.reclaimMark)
+	verifYield(7) // VerifSiteDelBeforeCAS
 	if !t.rootCAS(rnl, rnlNew) {
 		return false, errors.New("concurrent mutation attempted")
 	}
+	verifYield(8) // VerifSiteDelAfterCAS
 	t.rootDecRef(rnl)
 	return true, nil
 }
@@ -406,6 +412,7 @@ func (t *Collection) iteratorVisitorDescend(it *iterator) {
 func (t *Collection) iterate(it *iterator, v iteratorVisitor) {
 	defer func() {
 		close(it.items)
+		verifYield(21) // VerifSiteIterDrain
 		// drain
 		for range it.next {
 		}
@@ -414,9 +421,11 @@ func (t *Collection) iterate(it *iterator, v iteratorVisitor) {
 	if _, ok := <-it.next; !ok {
 		return
 	}
+	verifYield(20) // VerifSiteIterWake
 	it.err = v(t, func(i *Item) bool {
 		it.items <- i
 		_, ok := <-it.next
+		verifYield(20) // VerifSiteIterWake
 		return ok
 	})
 }
@@ -615,6 +624,7 @@ func (t *Collection) VisitItemsAscendEx(target []byte, withValue bool,
 	visitor ItemVisitorEx) error {
 	rnl := t.rootAddRef()
 	defer t.rootDecRef(rnl)
+	verifYield(3) // VerifSiteVisitPinned
 
 	var prevVisitItem *Item
 	var errCheckedVisitor error
@@ -643,6 +653,7 @@ func (t *Collection) VisitItemsDescendEx(target []byte, withValue bool,
 	visitor ItemVisitorEx) error {
 	rnl := t.rootAddRef()
 	defer t.rootDecRef(rnl)
+	verifYield(3) // VerifSiteVisitPinned
 
 	_, err := t.store.visitNodes(t, rnl.root,
 		target, withValue, visitor, 0, descendChoice)
@@ -661,6 +672,7 @@ func descendChoice(cmp int, n *node) (bool, *nodeLoc, *nodeLoc) {
 func (t *Collection) GetTotals() (numItems uint64, numBytes uint64, err error) {
 	rnl := t.rootAddRef()
 	defer t.rootDecRef(rnl)
+	verifYield(4) // VerifSiteTotalsPinned
 	n := rnl.root
 	nNode, err := n.read(t.store)
 	if err != nil || n.isEmpty() || nNode == nil {
@@ -799,6 +811,7 @@ func (t *Collection) rootAddRef() *rootNodeLoc {
 }
 
 func (t *Collection) rootDecRef(r *rootNodeLoc) {
+	verifYield(9) // VerifSiteRootDecRef
 	t.rootLock.Lock()
 	freeNodeLock.Lock()
 	t.rootDecRefUnlocked(r)
